@@ -10,7 +10,7 @@
     A [call] records the header (height [c_h], time [c_t]) handed to Pruner.Prune, who made it ([c_org]), its outcome
     [c_ok], and [c_cut] = head time - window at that moment. *)
 From Coq Require Import List ZArith.
-From CN Require Import Base.Lts Pruner.Find Pruner.FindProofs Pruner.Cycle Pruner.CycleProofs.
+From CN Require Import Base.Lts Pruner.Find Pruner.FindProofs Pruner.Cycle Pruner.CycleProofs Pruner.Light Pruner.LightProofs.
 Import ListNotations.
 Open Scope Z_scope.
 
@@ -137,6 +137,68 @@ Theorem C14_find_complete : forall c st ck lp hd hs,
   forall x, in_store st x -> upto ck lp hs < fst x -> snd hd - window c <= snd x + btime c.
 Proof. exact find_complete. Qed.
 Print Assumptions C14_find_complete.
+
+(** 5. WHAT "PRUNED" MEANS ON A LIGHT NODE (Pruner/Light.v: model of light ShareAvailability.Prune = delete every sample
+    listed in the sampling result, then the sampling result, the only index of the height's sample blocks).  [present]: per
+    listed sample, is its block stored; [index]: does the sampling result exist; [fs]: which DeleteBlock calls of this
+    attempt fail (any pattern); [wf]: every stored sample is listed in an existing result (true after sampling).
+
+    Reported pruned implies nothing left: whenever Prune returns nil - the only outcome after which the service never
+    visits the height again - no sample block and no sampling result of the height remain. *)
+Theorem C14_light_reported_pruned_implies_nothing_left : forall (s : lstate) (fs : list bool) (s' : lstate),
+  wf s = true -> prune_one s fs = (true, s') -> nothing_left s' = true.
+Proof. exact reported_pruned_implies_nothing_left. Qed.
+Print Assumptions C14_light_reported_pruned_implies_nothing_left.
+
+(** A failed call keeps the index: the sampling result survives every call that returns an error, nothing is added, the
+    samples before the failing delete are gone, the others untouched. *)
+Theorem C14_light_failed_keeps_index : forall (s : lstate) (fs : list bool) (s' : lstate),
+  prune_one s fs = (false, s') ->
+  index s = true /\ index s' = true /\ wf s' = true /\ only_removed (present s') (present s) /\
+  exists k, nth k fs false = true /\ (k < length (present s))%nat /\
+            present s' = repeat false k ++ skipn k (present s).
+Proof. exact failed_keeps_index. Qed.
+Print Assumptions C14_light_failed_keeps_index.
+
+(** Failed is retried with the index intact, for EVERY schedule of fault patterns (none / some / all / transient /
+    permanent): handed to Prune once per cycle until a call returns nil ([attempts]); recorded pruned => nothing left;
+    recorded failed => it was tried on every cycle and the sampling result still covers every remaining block. *)
+Theorem C14_light_failed_is_retried_with_index_intact : forall (sched : list (list bool)) (s : lstate) st s' n,
+  wf s = true -> attempts s sched = (st, s', n) ->
+  only_removed (present s') (present s) /\ wf s' = true /\
+  (st = Pruned -> nothing_left s' = true /\ (1 <= n <= length sched)%nat) /\
+  (st = Failed -> n = length sched /\ (sched <> [] -> index s' = true) /\ (sched = [] -> s' = s)).
+Proof. exact failed_is_retried_with_index_intact. Qed.
+Print Assumptions C14_light_failed_is_retried_with_index_intact.
+
+(** Transient faults: the first cycle whose call meets no fault (the k-th) removes everything, at the latest. *)
+Theorem C14_light_transient_faults_eventually_removed : forall (sched : list (list bool)) (s : lstate) (k : nat),
+  wf s = true -> (exists fs, nth_error sched k = Some fs /\ no_fault fs = true) ->
+  exists s' n, attempts s sched = (Pruned, s', n) /\ (n <= k + 1)%nat /\ nothing_left s' = true.
+Proof. exact transient_faults_eventually_removed. Qed.
+Print Assumptions C14_light_transient_faults_eventually_removed.
+
+(** The "best effort" variant (a failing delete is logged, the loop continues, the sampling result is deleted, nil is
+    returned) is refuted: success is reported with a sample block left that no index lists any more - every later call
+    reports success again and removes nothing; the code as it is reports the failure and keeps the index. *)
+Theorem C14_light_besteffort_refuted :
+  exists s fs s', wf s = true /\ prune_one_besteffort s fs = (true, s') /\ nothing_left s' = false /\ wf s' = false /\
+                  (forall fs', prune_one_besteffort s' fs' = (true, s')) /\ (forall fs', prune_one s' fs' = (true, s')) /\
+                  prune_one s fs = (false, mkL [false; true; true] true).
+Proof. exact besteffort_refuted. Qed.
+Print Assumptions C14_light_besteffort_refuted.
+
+Theorem C14_light_nonvacuous :
+  wf (mkL [true; true; false; true] true) = true /\
+  prune_one (mkL [true; true; false; true] true) [] = (true, mkL [false; false; false; false] false) /\
+  prune_one (mkL [true; true; false; true] true) [false; false; true] = (false, mkL [false; false; false; true] true) /\
+  attempts (mkL [true; true; false; true] true) [[false; true]; [true]; [false; false; false; true]; []; [true]]
+    = (Pruned, mkL [false; false; false; false] false, 4%nat) /\
+  attempts (mkL [true; true] true) [[true]; [true]; [true]] = (Failed, mkL [true; true] true, 3%nat) /\
+  light_mismatches [LPrune (mkL [true; true] true) [false; true] false (mkL [false; true] true);
+                    LPrune (mkL [true; true] true) [false; true] true (mkL [false; true] false)] = [1%N].
+Proof. exact light_nonvacuous. Qed.
+Print Assumptions C14_light_nonvacuous.
 
 (** non-vacuity: the hypotheses are met by a concrete irregular chain and history, on which 19 headers are handed over,
     among them two exactly at the boundary instant, failures, retries, and the repaired cycle returns where the old one spins *)
